@@ -171,6 +171,13 @@ def run_case(case):
     n = min(len(sig_c), len(sig_t))
     for i in range(n):
         a, b = sig_c[i], sig_t[i]
+        if a[0] != b[0]:
+            # the step was applicable in one twin only (e.g. the joint dimension after a beam splitter on |2,2> is
+            # beyond what a generated POVM is built for, after one on |2,0> it is not): from here on the twins
+            # execute different programs and their partitions need not agree
+            labels.append("twin-applicability-differs")
+            n = i
+            break
         if a[0] == "ok" and b[0] == "ok" and a[1] is not None and b[1] is not None and a[1] != b[1]:
             # dimensions differ between twins, names do not: signatures are over names only
             raise Violation("addressing-signature", f"step {i} ({case['steps'][i]['k']}): live set / partition / reported subsystems differ between equal-valued and distinct-valued twins: {a[1]} vs {b[1]}",
